@@ -908,6 +908,80 @@ impl Display for Expression {
     }
 }
 
+impl Expression {
+    /// The expression the way it is written when it is quoted in a message: without the blanks and comments of the
+    /// source, so that the message doesn't change when the layout of the source does.
+    pub fn to_plain_string(&self) -> String {
+        match self {
+            Self::BinaryExpression(expr) => format!(
+                "{} {} {}",
+                expr.lhs.data.to_plain_string(),
+                expr.op.data,
+                expr.rhs.data.to_plain_string()
+            ),
+            Self::Factor {
+                factor,
+                tag_not,
+                tag_neg,
+                ..
+            } => format!(
+                "{}{}{}",
+                if tag_not.is_some() { "!" } else { "" },
+                if tag_neg.is_some() { "-" } else { "" },
+                factor.data.to_plain_string()
+            ),
+        }
+    }
+}
+
+impl ExpressionFactor {
+    pub fn to_plain_string(&self) -> String {
+        match self {
+            Self::CurrentProgramCounter(_) => "*".into(),
+            Self::ExprParens { inner, .. } => format!("({})", inner.data.to_plain_string()),
+            Self::FunctionCall { name, args, .. } => format!(
+                "{}({})",
+                name.data,
+                args.iter()
+                    .map(|(arg, _)| arg.data.to_plain_string())
+                    .join(", ")
+            ),
+            Self::IdentifierValue { path, modifier } => format!(
+                "{}{}",
+                modifier
+                    .as_ref()
+                    .map(|m| m.data.to_string())
+                    .unwrap_or_default(),
+                path.data
+            ),
+            Self::Number { ty, value } => format!("{}{}", ty.data, value.data.to_plain_string()),
+            Self::InterpolatedString(i) => i.to_plain_string(),
+        }
+    }
+}
+
+impl Number {
+    /// The digits in lower case
+    pub fn to_plain_string(&self) -> String {
+        self.data.to_lowercase()
+    }
+}
+
+impl InterpolatedString {
+    pub fn to_plain_string(&self) -> String {
+        format!(
+            "\"{}\"",
+            self.items
+                .iter()
+                .map(|item| match item {
+                    InterpolatedStringItem::String(s) => s.data.clone(),
+                    InterpolatedStringItem::IdentifierPath(p) => format!("{{{}}}", p.data),
+                })
+                .join("")
+        )
+    }
+}
+
 impl Display for Block {
     fn fmt(&self, f: &mut Formatter) -> std::fmt::Result {
         let inner = self
